@@ -39,6 +39,11 @@ type C19Scenario struct {
 	Name    string         `json:"name"`
 	Stores  [][]store.Pair `json:"stores"`
 	Threads []C19Thread    `json:"threads"`
+	// SharedOptimizer: the plans are built up front, one after the other, by ONE
+	// Optimizer value per distinct statement text (a caller that keeps an
+	// Optimizer and asks it for a plan per request); the threads then only
+	// execute their own plans, each with its own ExecuteCtx
+	SharedOptimizer bool `json:"shared_optimizer,omitempty"`
 }
 
 type c19Case struct {
@@ -63,47 +68,51 @@ func c19BaseScenarios() []C19Scenario {
 	return []C19Scenario{
 		{"two-aggregates", [][]store.Pair{d(), d()}, []C19Thread{
 			{[]string{"select substr(key, 0, 1) as p, count(1), sum(strlen(value)) where true group by p"}, 0, drv.Row},
-			{[]string{"select substr(key, 0, 1) as p, max(strlen(value)), group_concat(key, ',') where key != 'zz' group by p order by p desc"}, 1, drv.Batch}}},
+			{[]string{"select substr(key, 0, 1) as p, max(strlen(value)), group_concat(key, ',') where key != 'zz' group by p order by p desc"}, 1, drv.Batch}}, false},
 		{"regexp-filters", [][]store.Pair{d(), d()}, []C19Thread{
 			{[]string{"select * where key ~= '^a' & value ~= '[0-9]'"}, 0, drv.Batch},
-			{[]string{"select key where value ~= '^[0-9]$' | key ~= '1$'"}, 1, drv.Row}}},
+			{[]string{"select key where value ~= '^[0-9]$' | key ~= '1$'"}, 1, drv.Row}}, false},
 		{"aliased-projections", [][]store.Pair{d(), d()}, []C19Thread{
 			{[]string{"select key, strlen(value) as l, l + 1 as m where l > 0"}, 0, drv.Batch},
-			{[]string{"select key, upper(key) as u where u ^= 'A' order by u desc"}, 1, drv.Row}}},
+			{[]string{"select key, upper(key) as u where u ^= 'A' order by u desc"}, 1, drv.Row}}, false},
 		{"error-rendering", [][]store.Pair{d(), d()}, []C19Thread{
 			{[]string{"select * where key ^= 1", "select key where int(value) / (strlen(key) - 2) > 0"}, 0, drv.Row},
-			{[]string{"select key, value where key ^= 'a' limit 1"}, 1, drv.Batch}}},
+			{[]string{"select key, value where key ^= 'a' limit 1"}, 1, drv.Batch}}, false},
 		{"shared-store-readers-and-writers", [][]store.Pair{d()}, []C19Thread{
 			{[]string{"select * where key ^= 'a'"}, 0, drv.Batch},
 			{[]string{"put ('z1', 'v'), ('z2', upper('w' + key))"}, 0, drv.Row},
-			{[]string{"delete where key ^= 'y'"}, 0, drv.Row}}},
+			{[]string{"delete where key ^= 'y'"}, 0, drv.Row}}, false},
 		{"plan-building-vs-execution", [][]store.Pair{d(), d()}, []C19Thread{
 			{[]string{"select key, int(value) + 1 where key in ('a1', 'b1') & is_int(value)"}, 0, drv.Row},
-			{[]string{"select * where key > 'a' & key < 'c' | key = 'y1'", "select count(1) where true"}, 1, drv.Batch}}},
+			{[]string{"select * where key > 'a' & key < 'c' | key = 'y1'", "select count(1) where true"}, 1, drv.Batch}}, false},
 		{"order-limit-vs-delete", [][]store.Pair{d(), d()}, []C19Thread{
 			{[]string{"select key, value where true order by value desc limit 1, 2"}, 0, drv.Batch},
-			{[]string{"delete where value != '3' limit 1, 1"}, 1, drv.Row}}},
+			{[]string{"delete where value != '3' limit 1, 1"}, 1, drv.Row}}, false},
 		{"same-statement-row-and-batch-shared-store", [][]store.Pair{d()}, []C19Thread{
 			{[]string{"select key, split(value, ',') as s where '2' in s | key ^= 'b'"}, 0, drv.Row},
-			{[]string{"select key, split(value, ',') as s where '2' in s | key ^= 'b'"}, 0, drv.Batch}}},
+			{[]string{"select key, split(value, ',') as s where '2' in s | key ^= 'b'"}, 0, drv.Batch}}, false},
 		{"puts-and-removes", [][]store.Pair{d(), d()}, []C19Thread{
 			{[]string{"put ('k1', 'v1')", "remove 'a1', 'a2'"}, 0, drv.Row},
-			{[]string{"put ('k1', join('-', 1, 2)), ('k2', lower('V2'))"}, 1, drv.Batch}}},
+			{[]string{"put ('k1', join('-', 1, 2)), ('k2', lower('V2'))"}, 1, drv.Batch}}, false},
 		{"scalar-and-aggregate-registries", [][]store.Pair{d(), d()}, []C19Thread{
 			{[]string{"select key, l2_distance(list(1, 2), list(strlen(key), 2)), json(value)['a'] where is_float(value) | true"}, 0, drv.Batch},
-			{[]string{"select avg(strlen(value)), min(key), json_arrayagg(key), quantile(strlen(value), 0.5) where true"}, 1, drv.Row}}},
+			{[]string{"select avg(strlen(value)), min(key), json_arrayagg(key), quantile(strlen(value), 0.5) where true"}, 1, drv.Row}}, false},
 		{"execution-errors", [][]store.Pair{d(), d()}, []C19Thread{
 			{[]string{"select key where value between 'b' and 'a'"}, 0, drv.Batch},
-			{[]string{"select key where l2_distance(list(1), list(1, 2)) > 0"}, 1, drv.Row}}},
+			{[]string{"select key where l2_distance(list(1), list(1, 2)) > 0"}, 1, drv.Row}}, false},
 		// the same kinds of failure on both sides: an error value handed out by
 		// the library must belong to the statement that failed
 		{"same-errors-both-sides", [][]store.Pair{d(), d()}, []C19Thread{
 			{[]string{"select * where key =", "select * where key in", "put ('k1', 'v1'), ('k2'", "select * where key ^= 1", "select nosuch(key) where true", "select key where 1 / (strlen(key) - 2) > 0"}, 0, drv.Row},
-			{[]string{"select key, upper(value) where value !=", "select * where key ^= 'a' & value in", "put ('k9'", "select key where value ^= 2", "select key where nosuch(value) = 1", "select value where 2 / (strlen(key) - 2) > 1"}, 1, drv.Batch}}},
+			{[]string{"select key, upper(value) where value !=", "select * where key ^= 'a' & value in", "put ('k9'", "select key where value ^= 2", "select key where nosuch(value) = 1", "select value where 2 / (strlen(key) - 2) > 1"}, 1, drv.Batch}}, false},
+		// plans built one after the other by one Optimizer value, executed concurrently
+		{Name: "one-optimizer-two-plans", Stores: [][]store.Pair{d(), d()}, SharedOptimizer: true, Threads: []C19Thread{
+			{[]string{"select substr(key, 0, 1) as p, count(1), sum(strlen(value)) + count(1) where true group by p"}, 0, drv.Row},
+			{[]string{"select substr(key, 0, 1) as p, count(1), sum(strlen(value)) + count(1) where true group by p"}, 1, drv.Batch}}},
 		{"three-access-paths", [][]store.Pair{d()}, []C19Thread{
 			{[]string{"select * where key in ('a1', 'y1', 'zz')"}, 0, drv.Row},
 			{[]string{"select * where key ^= 'a'"}, 0, drv.Batch},
-			{[]string{"select key where key between 'a2' and 'b9' order by key desc"}, 0, drv.Row}}},
+			{[]string{"select key where key between 'a2' and 'b9' order by key desc"}, 0, drv.Row}}, false},
 	}
 }
 
@@ -133,12 +142,47 @@ func C19Scenarios() []C19Scenario {
 
 // c19RunStmts executes a thread's statements and renders its observable result.
 func c19RunStmts(th C19Thread, st kvql.Storage, point func(string)) string {
+	return c19RunStmtsPre(th, st, point, nil)
+}
+
+// c19Prebuild: for a SharedOptimizer scenario, the plans of every thread,
+// built sequentially by one Optimizer per distinct statement text.
+func c19Prebuild(sc C19Scenario, sts []kvql.Storage) [][]kvql.FinalPlan {
+	if !sc.SharedOptimizer {
+		return nil
+	}
+	opts := map[string]*kvql.Optimizer{}
+	pre := make([][]kvql.FinalPlan, len(sc.Threads))
+	for i, th := range sc.Threads {
+		for _, q := range th.Stmts {
+			o := opts[q]
+			if o == nil {
+				o = kvql.NewOptimizer(q)
+				opts[q] = o
+			}
+			plan, err := o.BuildPlan(sts[th.Store])
+			if err != nil {
+				plan = nil
+			}
+			pre[i] = append(pre[i], plan)
+		}
+	}
+	return pre
+}
+
+func c19RunStmtsPre(th C19Thread, st kvql.Storage, point func(string), pre []kvql.FinalPlan) string {
 	var out []string
-	for _, q := range th.Stmts {
+	for qi, q := range th.Stmts {
 		if point != nil {
 			point("build:" + q)
 		}
-		o := drv.Run(q, st, drv.Opt{Mode: th.Mode})
+		var o *drv.Outcome
+		if pre != nil && pre[qi] != nil {
+			o = &drv.Outcome{Plan: pre[qi]}
+			drv.Drain(pre[qi], drv.Opt{Mode: th.Mode}, o)
+		} else {
+			o = drv.Run(q, st, drv.Opt{Mode: th.Mode})
+		}
 		s := o.Describe()
 		if err := o.Err(); err != nil {
 			if qb, ok := err.(kvql.QueryBinder); ok {
@@ -191,7 +235,7 @@ func (c19) Info() core.Info {
 		ID:    "C19",
 		Title: "Independent statements can run concurrently without races or interference",
 		Level: "model_checking",
-		Rule: "13 scenarios (each in three iteration-mode assignments: mixed, all row, all batch) of 2..3 statement threads chosen so that the threads meet on every piece of library-wide state (function and aggregate registries, batch size, cache switch, error padding, name tables) and on shared storage (readers with a put and a delete on disjoint key ranges); each thread parses, plans, executes and renders on its own goroutine under a cooperative scheduler whose scheduling points are every Storage/Cursor call and every access to a package-level variable (instrumented at check time into a build overlay); ALL schedules with at most 2 (thorough: 3) preemptions are explored depth-first (iterative context bounding). " +
+		Rule: "14 scenarios (each in three iteration-mode assignments: mixed, all row, all batch) of 2..3 statement threads chosen so that the threads meet on every piece of library-wide state (function and aggregate registries, batch size, cache switch, error padding, name tables) and on shared storage (readers with a put and a delete on disjoint key ranges); each thread parses, plans, executes and renders on its own goroutine under a cooperative scheduler whose scheduling points are every Storage/Cursor call and every access to a package-level variable (instrumented at check time into a build overlay); ALL schedules with at most 2 (thorough: 3) preemptions are explored depth-first (iterative context bounding). " +
 			"Oracle on every schedule: each thread's rows / errors / rendered messages equal its solo run and the final stores equal a sequential run; conflict monitor: no package-level variable is written by one thread and accessed by another (kvql has no synchronisation, so such a pair is a data race), and - heap-write monitor, instrumented the same way at every assignment through a pointer, field, slice element or map element of the library, with the collector off during an execution - no heap object is written by two different statement threads within one execution; no panic. A supporting, free-running pass of the same bodies under the Go race detector (not the deciding step) looks for unsynchronised heap sharing the scheduler cannot see. Non-trivial: schedules that switch between live threads. Distinct: (scenario, schedule).",
 		Assumptions: []string{
 			"the storage is thread-safe (the cooperative scheduler switches only at storage-call boundaries; the free-running pass uses a mutex-protected store)",
@@ -301,11 +345,23 @@ func c19Execute(sc C19Scenario, prefix []int, mon *c19Monitor) (*sched.Exec, *c1
 		sts[i].NoLog = true
 	}
 	var ex *sched.Exec
+	var pre [][]kvql.FinalPlan
+	if sc.SharedOptimizer {
+		ks := make([]kvql.Storage, len(sts))
+		for i := range sts {
+			ks[i] = sts[i]
+		}
+		pre = c19Prebuild(sc, ks)
+	}
 	bodies := make([]func(e *sched.Exec, id int), len(sc.Threads))
 	for i, th := range sc.Threads {
 		i, th := i, th
 		bodies[i] = func(e *sched.Exec, id int) {
-			obs.results[i] = c19RunStmts(th, sts[th.Store], e.Point)
+			var mine []kvql.FinalPlan
+			if pre != nil {
+				mine = pre[i]
+			}
+			obs.results[i] = c19RunStmtsPre(th, sts[th.Store], e.Point, mine)
 		}
 	}
 	// the hooks need the Exec before Run returns: install them through a holder
@@ -629,15 +685,20 @@ func C19RunFree(iters int, copies int) (interference []string) {
 					sts[i] = m // read-only: lock-free, no happens-before edge between statement goroutines
 				}
 			}
+			pre := c19Prebuild(sc, sts)
 			var wg sync.WaitGroup
 			var mu sync.Mutex
 			for c := 0; c < cp; c++ {
 				for i, th := range sc.Threads {
-					i, th := i, th
+					i, th, c := i, th, c
 					wg.Add(1)
 					go func() {
 						defer wg.Done()
-						res := c19RunStmts(th, sts[th.Store], nil)
+						var mine []kvql.FinalPlan
+						if pre != nil && c == 0 {
+							mine = pre[i]
+						}
+						res := c19RunStmtsPre(th, sts[th.Store], nil, mine)
 						mu.Lock()
 						all = append(all, got{i, res})
 						mu.Unlock()
